@@ -491,8 +491,8 @@ ob(name='scenario.movable_mock_moved', cbmc_flags=['--memory-leak-check'], kind=
    bound='none for the argument value; the scenario (movable mock with one active and one saturated expectation, moved, called, over-called) is fixed by the driver function')
 ob(name='scenario.parameter_mismatch_report', cbmc_flags=['--memory-leak-check'], kind='BL', props=['C01', 'C15', 'C10'], unit='c09', harness='h_c09.c', entry='c_param_mismatch', unwind=26, timeout=1200, object_bits=12, defines={'VP_TOK_CAP': 24}, variants=[('fits', {'W_X': 5}), ('rejected', {'W_X': 7})], min_reach=0,
    bound='first argument 5 (fits) or 7 (rejected), second argument free; one expectation p(5, _) on a mock function of arity 2')
-UNITS['c17s'] = {'opaque': [' get_lock$', r'9vp_tracer5traceE'], 'dyn_types': [r'^sequence_handler<[01]>$', r'^call_matcher<void\(int,int\),.*>$', r'^call_matcher<char\*\(char\*\),.*>$', r'^return_handler_t<.*lambdaat.*>$', r'^vp_vp_tracer$'],
-                 'roots': {'C17_TRACE': '^_ZN14vp_trompeloeil12vp_c17_traceE', 'C17_TRACE_NULL': '^_ZN14vp_trompeloeil17vp_c17_trace_nullE', 'C18_NULL_REPORT': '^_ZN14vp_trompeloeil18vp_c18_null_reportE', 'OBS': 'rec:^vp_vp_obs$', 'VPTRACER': 'rec:^vp_vp_tracer$'},
+UNITS['c17s'] = {'opaque': [' get_lock$', r'9vp_tracer5traceE'], 'dyn_types': [r'^sequence_handler<[01]>$', r'^call_matcher<void\(int,int\),.*>$', r'^call_matcher<char\*\(char\*\),.*>$', r'^call_matcher<int\(int\),.*>$', r'^call_matcher<unsignedint\(unsignedint\),.*>$', r'^side_effect<.*\(lambdaat.*\)>$', r'^return_handler_t<.*lambdaat.*>$', r'^vp_vp_tracer$'],
+                 'roots': {'C17_TRACE': '^_ZN14vp_trompeloeil12vp_c17_traceE', 'C17_TRACE_NULL': '^_ZN14vp_trompeloeil17vp_c17_trace_nullE', 'C18_NULL_REPORT': '^_ZN14vp_trompeloeil18vp_c18_null_reportE', 'C17_NESTED': '^_ZN14vp_trompeloeil13vp_c17_nestedE', 'OBS': 'rec:^vp_vp_obs$', 'VPTRACER': 'rec:^vp_vp_tracer$'},
                  'stub_aliases': {'TRACE_STUB': r'^f_.*9vp_tracer5traceE'}}
 ob(name='scenario.unfulfilled_report_values', cbmc_flags=['--memory-leak-check'], kind='BL', props=['C04', 'C15', 'C14'], unit='c09', harness='h_c09.c', entry='c_unfulfilled', unwind=26, timeout=1200, object_bits=12, defines={'VP_TOK_CAP': 24},
    variants=[('never', {'W_X': 5}), ('once', {'W_X': 7})], min_reach=0,
@@ -501,14 +501,20 @@ ob(name='scenario.unfulfilled_when_unwound', cbmc_flags=['--memory-leak-check'],
    bound='none: one unfulfilled expectation whose scope is left by the exception of a fatal report about another mock function')
 ob(name='scenario.tracer_object', cbmc_flags=['--memory-leak-check'], kind='FC+', props=['C17', 'C14'], unit='c17s', harness='h_c17s.c', entry='c_trace', unwind=26, timeout=900, object_bits=12, defines={'VP_TOK_CAP': 24},
    bound='none for the argument values; one tracer object, one accepted call while it is alive and one after it died')
+ob(name='scenario.tracer_nested_call', cbmc_flags=['--memory-leak-check'], kind='FC+', props=['C17', 'C08', 'C14'], unit='c17s', harness='h_c17s.c', entry='c_trace_nested', unwind=26, timeout=900, object_bits=12, defines={'VP_TOK_CAP': 24},
+   bound='none for the argument values; one tracer object, one accepted call whose side effect makes a second accepted mock call')
 ob(name='scenario.tracer_null_values', cbmc_flags=['--memory-leak-check'], kind='FC+', props=['C17', 'C18', 'C14', 'C08'], unit='c17s', harness='h_c17s.c', entry='c_trace_null', unwind=26, timeout=900, object_bits=12, defines={'VP_TOK_CAP': 24},
    bound='none: the argument (and returned value) is null or a non-null string; one tracer object, one accepted call of char const*(char const*)')
 ob(name='scenario.null_argument_report', cbmc_flags=['--memory-leak-check'], kind='FC+', props=['C18', 'C15', 'C14', 'C01'], unit='c17s', harness='h_c17s.c', entry='c_null_report', unwind=42, timeout=900, object_bits=12, defines={'VP_TOK_CAP': 40},
    bound='none: one expectation s(ne(nullptr)) on char const*(char const*), one call with the null pointer (rejected), one with a string (accepted)')
 UNITS['c13s'] = {'opaque': [' get_lock$'], 'dyn_types': [r'^sequence_handler<[01]>$', r'^lifetime_monitor$', r'^deathwatched<vp_vp_D>$', r'^call_matcher<void\(\),std::tuple<>>$'],
-                 'roots': {'C13_MACROS': '^_ZN14vp_trompeloeil13vp_c13_macrosE', 'C13_SEQ': '^_ZN14vp_trompeloeil15vp_c13_sequenceE', 'OBS': 'rec:^vp_vp_obs$'}}
+                 'roots': {'C13_MACROS': '^_ZN14vp_trompeloeil13vp_c13_macrosE', 'C13_SEQ': '^_ZN14vp_trompeloeil15vp_c13_sequenceE', 'C13_NAMES': '^_ZN14vp_trompeloeil16vp_c13_seq_namesE', 'C13_LISTING': '^_ZN14vp_trompeloeil18vp_c13_seq_listingE', 'OBS': 'rec:^vp_vp_obs$'}}
 ob(name='scenario.sequenced_destruction', cbmc_flags=['--memory-leak-check'], kind='FC+', props=['C13', 'C05', 'C06', 'C15'], unit='c13s', harness='h_c13s.c', entry='c_seq_destruction', unwind=8, timeout=900, object_bits=12,
    bound='none: both orders (the object dies after / before the call it is sequenced behind); one sequence, one expectation, one requirement')
+ob(name='scenario.sequenced_destruction_named', cbmc_flags=['--memory-leak-check'], kind='FC+', props=['C15', 'C05', 'C13', 'C14'], unit='c13s', harness='h_c13s.c', entry='c_seq_names', unwind=26, timeout=900, object_bits=12, defines={'VP_TOK_CAP': 24},
+   bound='none: both histories (the step behind the requirement is called while the object lives / only after it died); one sequence, one requirement, one expectation')
+ob(name='scenario.sequenced_destruction_listed', cbmc_flags=['--memory-leak-check'], kind='FC+', props=['C06', 'C15', 'C13', 'C14'], unit='c13s', harness='h_c13s.c', entry='c_seq_listing', unwind=26, timeout=900, object_bits=12, defines={'VP_TOK_CAP': 24},
+   bound='none: one sequence object that dies while one destruction requirement is registered in it; the requirement then ends, then the object dies')
 ob(name='scenario.require_destruction_macros', cbmc_flags=['--memory-leak-check'], kind='FC+', props=['C13', 'C15', 'C14'], unit='c13s', harness='h_c13s.c', entry='c_destruction', unwind=6, timeout=900, object_bits=12,
    bound='none: both cases (a requirement is alive / none is); one deathwatched object')
 ob(name='scenario.throw_clause', cbmc_flags=['--memory-leak-check'], kind='FC+', props=['C08', 'C03', 'C14'], unit='c09', harness='h_c09.c', entry='c_throw', unwind=6, timeout=900, object_bits=12,
